@@ -188,7 +188,7 @@ def make_md(cfg, prefix, params=None, md=None):
     elif eng == "xl_esmd":
         md = MDm.XL_ESMD(damp=cfg.get("damp"), xl_bomd_params={"k": cfg["k"]}, **common)
     elif eng in ("xl", "xl_damp", "exc_xl"):
-        md = MDm.XL_BOMD(damp=(cfg["damp"] if eng == "xl_damp" else None), xl_bomd_params={"k": cfg["k"]}, **common)
+        md = MDm.XL_BOMD(damp=(cfg["damp"] if eng == "xl_damp" else None), xl_bomd_params=dict({"k": cfg["k"]}, **cfg.get("xl_extra", {})), **common)
     elif eng == "ksa":
         xp = {"k": cfg["k"], "max_rank": cfg.get("max_rank", 2), "err_threshold": 0.0, "T_el": cfg.get("T_el", 1500)}
         md = MDm.KSA_XL_BOMD(damp=cfg.get("ksa_damp"), xl_bomd_params=xp, **common)
